@@ -157,6 +157,38 @@ def replay_state(arg):
         if not dev <= (1e-6 if name.startswith("electron") else 1e-8):
             res["violations"].append("%s changes under a rewrite that keeps the functions (last step %s): max relative deviation %.3g"
                                      % (name, st.get("last"), dev))
+    if not eri:
+        # quantities contracted with a density matrix: the matrix of the rewritten basis is the original one with its indices
+        # permuted (and signed) the same way.  The matrix is symmetric only up to the noise the library's own np.allclose
+        # test accepts (triangles differing in the sixth digit): the result may not depend on which triangle an implementation reads.
+        rngp = cg.rng_for(seed, pid, "dm", nref)
+        A = np.array([[rngp.uniform(-1, 1) for _ in range(nref)] for _ in range(nref)])
+        S0 = A @ A.T
+        P = S0 * (1.0 + 4e-6 * (np.triu(np.ones((nref, nref)), 1) - np.tril(np.ones((nref, nref)), -1)))   # |P - P^T| = 8e-6 |P|
+        Pc = P[np.ix_(idx, idx)] * sgn[:, None] * sgn[None, :]
+        pts = np.array([[0.1, -0.2, 0.3], [1.0, 0.5, -0.7], [0.0, 0.0, 0.0], [-0.6, 0.9, 0.2]])
+        nuc = np.array([[0.4, 0.1, -0.3], [-0.9, 0.6, 0.5]])
+        chg = np.array([1.0, 3.0])
+        m = gb.mod
+        Dm = m("gbasis.evals.density")
+        St = m("gbasis.evals.stress_tensor")
+        dcalls = {
+            "evaluate_density": lambda p_, b_: Dm.evaluate_density(p_, b_, pts),
+            "evaluate_density_gradient": lambda p_, b_: Dm.evaluate_density_gradient(p_, b_, pts),
+            "evaluate_density_laplacian": lambda p_, b_: Dm.evaluate_density_laplacian(p_, b_, pts),
+            "evaluate_posdef_kinetic_energy_density": lambda p_, b_: Dm.evaluate_posdef_kinetic_energy_density(p_, b_, pts),
+            "evaluate_stress_tensor": lambda p_, b_: St.evaluate_stress_tensor(p_, b_, pts, alpha=0.3, beta=0.6),
+            "electrostatic_potential": lambda p_, b_: m("gbasis.evals.electrostatic_potential").electrostatic_potential(b_, p_, pts, nuc, chg),
+        }
+        for name, f in dcalls.items():
+            a = f(P, ref)
+            b = f(Pc, cur)
+            res["n"] += 1
+            dev = float(common.above_noise(np.abs(b - a).max()) / (np.abs(a).max() + 1e-300)) if a.shape == b.shape else float("inf")
+            res["dev"] = max(res["dev"], dev if np.isfinite(dev) else 0.0)
+            if not dev <= 1e-9:
+                res["violations"].append("%s (density matrix symmetric to a relative 8e-6) changes under a rewrite that keeps the functions (last step %s): "
+                                         "max relative deviation %.3g" % (name, st.get("last"), dev))
     return res
 
 
